@@ -120,7 +120,7 @@ func pick(rng *rand.Rand, n int) int { return rng.Intn(n) }
 // RandParams draws a legal parameter set including the edges.
 func RandParams(rng *rand.Rand) types.Params {
 	p := types.DefaultParams()
-	p.MaxRequestTimeout = []int64{1, 2, 3, 3, 5, 8}[pick(rng, 6)]
+	p.MaxRequestTimeout = []int64{1, 2, 3, 3, 5, 8, 20, 100}[pick(rng, 8)]
 	p.MinDepositMultiple = []int64{1, 2, 10, 200}[pick(rng, 4)]
 	md := []int64{0, 1, 50, 6000}[pick(rng, 4)]
 	if md == 0 {
@@ -453,7 +453,7 @@ func (g *Gen) opCall() {
 	if cap < 1 {
 		cap = 1
 	}
-	timeout := int64(1 + g.rng.Intn(int(g.p.MaxRequestTimeout)))
+	timeout := int64(1 + g.rng.Intn(int(minI64(g.p.MaxRequestTimeout, 6))))
 	if g.rng.Intn(10) == 0 {
 		timeout = g.p.MaxRequestTimeout + int64(g.rng.Intn(2))
 	}
@@ -473,6 +473,10 @@ func (g *Gen) opCall() {
 	}
 	super := g.rng.Intn(8) == 0
 	g.r.Msg(types.NewMsgCallService(svc, provs, cons, goodInput, coins(cap), timeout, super, repeated, freq, total), "")
+	// a transaction may carry several calls: same tx hash, next message index
+	for i := 0; i < 2 && g.rng.Intn(4) == 0; i++ {
+		g.r.MsgTx(types.NewMsgCallService(svc, provs, cons, goodInput, coins(cap), timeout, super, repeated, freq, total), "same-transaction", true)
+	}
 }
 
 func (g *Gen) rememberRequests() {
@@ -754,7 +758,9 @@ func (g *Gen) Step() {
 func RandomHistory(a *App, mon *Mon, seed int64, n int) *Run {
 	rng := rand.New(rand.NewSource(seed))
 	params := RandParams(rng)
-	r := NewRun(a, fmt.Sprintf("random-%d", seed), seed, params, mon)
+	// some histories start just below a byte boundary of the big-endian height keys
+	start := []int64{10, 10, 10, 250, 65530, 1<<32 - 6, 1 << 40}[pick(rng, 7)]
+	r := NewRunAt(a, fmt.Sprintf("random-%d", seed), seed, params, mon, start)
 	act := MakeActors()
 	mid := []int64{3, 10, 40, 500}[pick(r.rng, 4)]
 	poor := []int64{0, 1, 2, 5}[pick(r.rng, 4)]
@@ -778,3 +784,10 @@ func RandomHistory(a *App, mon *Mon, seed int64, n int) *Run {
 }
 
 var _ = sort.Strings
+
+func minI64(a, b int64) int64 {
+	if a < b {
+		return a
+	}
+	return b
+}
